@@ -47,6 +47,34 @@ def _cosim_one(a):
         return (a, "ok", len(created))
 
 
+def _cosim_inputs(a):
+    """what a real run READS (template files through the loaders, DSDL definitions) must be named by --list-inputs"""
+    import json
+    lang, gs, omit = a
+    with common.scratch("nvc08i_") as d:
+        base = ["--target-language", lang, "--generate-support", gs] + (["--omit-serialization-support"] if omit else []) \
+            + (["--experimental-languages"] if lang != "c" else [])
+        ns = str(common.VERIF / "data" / "ns1" / "vt")
+        r1 = _nnvg(base + ["--list-inputs", "-O", str(d / "o"), ns], str(d))
+        if r1.returncode != 0:
+            return (a, "rejected" if "Logic error" in r1.stderr else "error", r1.stderr[-300:])
+        if (d / "o").exists():
+            return (a, "side-effect", "--list-inputs created the output directory")
+        listed = {str(pathlib.Path(x).resolve()) for x in r1.stdout.split(";") if x.strip()}
+        env = dict(os.environ); env.pop("VERIF_UNDER_CROSSHAIR", None)
+        r2 = subprocess.run([common.PY, str(common.VERIF / "xh" / "trace_inputs.py")] + base + ["-O", str(d / "o"), ns], cwd=str(d), env=env,
+                            stdout=subprocess.PIPE, stderr=subprocess.PIPE, text=True)
+        line = [l for l in r2.stdout.splitlines() if l.startswith("@@TRACE@@")]
+        if r2.returncode != 0 or not line:
+            return (a, "generation-fails", r2.stderr[-200:])
+        tr = json.loads(line[0][len("@@TRACE@@"):])
+        read = {str(pathlib.Path(x).resolve()) for x in tr["templates"] + tr["dsdl"]}
+        missing = sorted(read - listed)
+        if missing:
+            return (a, "unlisted-input", dict(read_but_not_listed=missing))
+        return (a, "ok", len(read))
+
+
 def main(tier: str) -> int:
     rep = common.Report("C08", tier, "other")
     rep.functions = ["nunavut.cli.runners.ArgparseRunner.run", "ArgparseRunner._list_outputs_only", "ArgparseRunner._list_inputs_only",
@@ -62,7 +90,8 @@ def main(tier: str) -> int:
     rep.assumptions = ["generator stubs implement the documented generate_all contract; the contract itself is validated against the real nnvg "
                        "by co-simulation on a 3-type namespace (counted under traces_validated_against_impl)",
                        "flag combinations rejected by the real _post_process_args are assumed away (documented precondition)"]
-    rep.not_covered = ["input-listing completeness clause (influence of a template on the output is not expressible as a solver assertion)",
+    rep.not_covered = ["input-listing completeness as *influence* (not expressible as a solver assertion); its observable lower bound -- every "
+                       "template/DSDL file a real run reads is listed -- is checked by concrete co-simulation only, not by the solver",
                        "custom template directories, output extension / namespace stem overrides", "lookup (dependency) namespaces"]
     rep.extra["explanation"] = ("CrossHair/z3 over the real CLI dispatch with every flag symbolic: listed set == set a real run creates; "
                                 "listing/dry-run only ever call generators in dry-run mode; real generator entry points write nothing when is_dryrun")
@@ -94,6 +123,30 @@ def main(tier: str) -> int:
         rep.unknown("cosim", f"only {ok} of {len(combos)} option combinations generated successfully: co-simulation is not meaningful")
     rep.extra["traces_validated_against_impl"] = ok
     rep.extra["cosim_runs"] = len(combos)
+    # input listing: every template file and DSDL file a real run reads is named by --list-inputs (concrete co-simulation;
+    # "influence" as such is not a solver-expressible notion, "is read by the run" is its observable lower bound)
+    icombos = [(l, g, o) for l in langs for g in ("as-needed", "never", "always") for o in (False, True)]
+    iok = 0
+    for a, verdict, detail in common.pmap(_cosim_inputs, icombos):
+        if verdict == "ok":
+            iok += 1
+        if verdict in ("ok", "rejected", "generation-fails"):
+            continue
+        rd = common.replay_dir("C08", dict(cosim_inputs=a))
+        flags = f"--target-language {a[0]} --generate-support {a[1]}" + (" --omit-serialization-support" if a[2] else "") + \
+                (" --experimental-languages" if a[0] != "c" else "")
+        (rd / "replay.sh").write_text("#!/bin/bash\n# templates/DSDL files read by a real run vs --list-inputs\nD=$(mktemp -d); cd $D\n"
+                                      f"{common.PY} -m nunavut {flags} --list-inputs -O $D/o {common.VERIF}/data/ns1/vt | tr ';' '\\n' | sort > listed.txt\n"
+                                      f"{common.PY} {common.VERIF}/xh/trace_inputs.py {flags} -O $D/o {common.VERIF}/data/ns1/vt | grep @@TRACE@@\n"
+                                      "echo 'compare the traced files with listed.txt'; exit 11\n")
+        os.chmod(rd / "replay.sh", 0o755)
+        if verdict == "error":
+            rep.unknown(f"cosim-inputs{a}", f"nnvg failed: {detail}")
+        else:
+            rep.counterexample(f"cosim-inputs-{verdict}-{a[0]}", f"real nnvg {flags}: {verdict}: {detail}", str(rd), True)
+    if iok < len(icombos) // 2:
+        rep.unknown("cosim-inputs", f"only {iok} of {len(icombos)} input-listing co-simulations ran")
+    rep.extra["input_listing_cosim"] = dict(runs=len(icombos), ok=iok)
     return rep.write()
 
 
